@@ -22,7 +22,22 @@ import math
 from datetime import datetime, timedelta, timezone
 from fractions import Fraction as F
 
-from lib.core import Stream, cQ, cbool
+from lib.core import Stream, cbool
+from lib.core import cQ as _cQ
+
+
+def cQ(x):
+    """rational -> Coq term; binary64 magnitudes (huge numerator or power-of-two denominator) are written
+    as  fq m e  =  m * 2^e  so that Coq does not have to parse 300-digit decimal literals"""
+    fr = F(x)
+    n, d = fr.numerator, fr.denominator
+    if (abs(n) >= 1 << 64 or d >= 1 << 64) and d & (d - 1) == 0:
+        e = -(d.bit_length() - 1)
+        while n and n % 2 == 0:
+            n //= 2
+            e += 1
+        return f"(fq ({n}) ({e}))"
+    return _cQ(fr)
 
 E0 = datetime(2023, 1, 1, tzinfo=timezone.utc)
 MISSING = ("none", "nan", "inf", "-inf")
@@ -887,6 +902,7 @@ def c_expr(e):
 HEADER = """From Coq Require Import NArith QArith Qabs.
 From Verif Require Import model.Common model.Formula.
 Open Scope Q_scope.
+Definition fq (m e : Z) : Q := if (0 <=? e)%Z then ((m * 2 ^ e)%Z # 1) else (m # Z.to_pos (2 ^ (- e))%Z).
 Definition rows_ok (p : list step * list (N * bool)) (rows : list (list (N * inp) * outcome)) : bool :=
   forallb (fun r => outcome_eqb (run_round Num p (env_of (fst r))) (snd r)) rows.
 (* string path: code points of the formula, nones_are_zeros, the AST it was printed from,
@@ -1410,7 +1426,7 @@ def float_boundary_seeds():
 FLOAT_HEADER_EXTRA = """
 (* float-boundary stream: the same model with a rounding function that overflows beyond the largest
    binary64 value; used only on cases whose every arithmetic step is exact or overflows for certain *)
-Definition fmax : Q := (%d # 1).
+Definition fmax : Q := fq 9007199254740991 971.
 Definition rnd_ovf (q : Q) : val :=
   if Qle_bool (Qabs q) fmax then Num q else if Qle_bool 0 q then PInf else NInf.
 Definition rows_ok_f (p : list step * list (N * bool)) (src : list (N * bool)) (rows : list (list (N * inp) * outcome)) : bool :=
@@ -1425,7 +1441,7 @@ Definition check_float (c : (hb + list N) * bool * list (N * bool) * (list step 
               | None => false
               end
   end.
-""" % (2 ** 1024 - 2 ** 971)
+"""
 
 
 def c_outcome_f(o):
